@@ -35,7 +35,7 @@ type mpCfg struct {
 	Limits    bool
 	BlockSize int
 	NTx       int
-	Foreign   bool // also blocks proposed elsewhere (outside the property's quantifier: off)
+	Foreign   bool // also blocks proposed elsewhere: a commit of a tx this node never received (configuration A)
 }
 
 func mpAlphabet(cfg mpCfg) []string {
